@@ -290,3 +290,39 @@ pub proof fn lemma_l1(n: u64, m: u64, sp: u64, e: u64)
     }
 }
 
+
+// the successor of n is always a future marker of n (while it fits under the epoch) ...
+pub proof fn lemma_next_is_future_marker(n: u64, e: u64)
+    requires 1 <= n, n < e
+    ensures in_fut(add(n, 1), n, e)
+{
+    let x = add(n, 1);
+    let p = !n & x;   // lowest zero bit of n
+    assert(x == n + 1 && pow2(p) && n & p == 0 && x == (n | p) & !sub(p, 1) && (p > n ==> pow2(x))) by(bit_vector)
+        requires n < 0xffff_ffff_ffff_ffffu64, x == add(n, 1), p == !n & x;
+    if p <= n {
+        assert(fut_a(x, n, p));
+    } else {
+        assert(pow2(x));
+        if kmin(n) != 0 && kmin(n) <= e && x >= kmin(n) {
+            assert(x == kmin(n));
+            assert(is_sk(x));
+        }
+    }
+}
+// ... hence, against an honestly maintained tree (fresh leaves exactly for the versions 1..=n of the label), a history that shows its latest
+// version m present and every future marker of (m, E) absent can only have m == n: the newest entries cannot be dropped (C07), and two
+// accepted histories agree on the latest version (C08)
+// alarm: C07, C08
+pub proof fn lemma_history_pins_latest(m: u64, n: u64, e: u64)
+    requires
+        1 <= m <= e, 1 <= n <= e,
+        m <= n,                                                         // fresh(m) is shown present
+        forall|x: u64| in_fut(x, m, e) ==> !(1 <= x <= n),              // every future marker of (m, E) is shown absent
+    ensures m == n
+{
+    if m < n {
+        lemma_next_is_future_marker(m, e);
+        assert(in_fut(add(m, 1), m, e));
+    }
+}
